@@ -20,18 +20,28 @@ in the generated-facts block; the translator never guesses):
               (u)int{8,16,32,64}_t, size_t, bool, varintWidth (each typedef is
               checked against the current headers with a _Generic probe);
               `uint8_t *` / `const uint8_t *` parameters (a byte object) and
-              locals (a position inside one such object);
-              `T *` parameters for a scalar T (ONE object of type T)
+              locals (a position inside one such object); a parameter may be
+              advanced itself (p++, p += n); casts between uint8_t * and
+              int8_t * / char * (the same bytes, read through int8_t as a
+              signed value); uninitialised local `uint8_t a[n]` arrays (a byte
+              object whose elements hold no value until stored: reading one is
+              CUB, indexing outside is COob; never passed to a function);
+              `T *` parameters for a non-byte scalar T: ONE object of type T,
+              unless the function subscripts the parameter or does arithmetic
+              on it, in which case it is an array of T (a `list Z`, index
+              checked: COob outside)
   expressions integer/char literals, enum constants, file-scope `const` integer
               variables with a constant initialiser, parentheses, implicit and
               explicit integral casts, + - * / % << >> & | ^ ~ unary -,
               < <= > >= == != ! && || ?:, sizeof of a scalar type/expression
               (the source is read as the pinned build compiles it: -DNDEBUG),
               reads of locals/parameters, p[i] and *p on byte pointers, *p on
-              scalar pointers, p + i / p - i / &p[i] / p - q on byte pointers,
+              scalar pointers, p + i / p - i / &p[i] / p - q / p < q (same object)
+              on byte pointers,
               &local
   effects     `x = e`, `x op= e`, `++x` `x++` `--x` `x--` (integers and byte
-              pointer locals), `p[i] = e`, `*p = e`, `*p++ = e`, `a, b`, calls —
+              pointer locals), `p[i] = e`, `p[i++] = e`, `*p = e`, `*p++ = e`,
+              `a, b`, calls —
               as a statement, an initialiser, an assigned / returned value, a
               loop or if condition, possibly under casts, `!`, or compared with
               an integer literal; never two of them in one full expression
@@ -43,14 +53,25 @@ in the generated-facts block; the translator never guesses):
               function being translated, not in an inlined callee), `(void)e;`
   calls       * a `static` function of the same file is inlined,
               * a non-static function of the same file is called through its own
-                translation `src_<g>` (byte pointers must be passed unoffset,
-                no two pointer arguments may alias),
+                translation `src_<g>` (no two pointer arguments may alias; a byte
+                pointer p + k is passed as the view `c_view m k` of the object
+                from index k on — an index below k is then COob in the callee,
+                which is conservative — and a writing callee's view is put back
+                with `c_unview`),
+              * a function of ANOTHER translated file (`imports`) is called through
+                that file's `src_<g>` (coq/gen/Src_<other>.v is imported),
               * cond ? a : b whose arms contain such calls (condition call-free),
               * memcpy(p, &x, sizeof x) between two scalar objects of the same
                 type is the assignment *p = x,
               * __builtin_{s,u}{add,sub,mul}{,l,ll}_overflow as gcc documents them
-  rejected    goto, labels, assignment of a pointer to another object, arrays,
-              structs, unions, floating point, non-const globals, static locals,
+  structs     a struct all of whose fields are integers: a local `S x;` (fields
+              without a value), `x.f`, `p->f`, `&x` passed to a function, and
+              `S *p` parameters, where p MAY BE NULL: the parameter is an
+              `option` of the tuple of its fields (each an `option Z`), the body
+              is rendered once for p == NULL and once for p != NULL, `if (p)` is
+              then known, and `p->f` on the null pointer is CUB UB_null_deref
+  rejected    goto, labels, assignment of a pointer to another object, other
+              arrays and structs, unions, floating point, non-const globals, static locals,
               function pointers, varargs, volatile, pointer comparison, calls to
               anything outside the file, recursion
 
@@ -149,6 +170,8 @@ class Env:
 
     def copy(self):
         return Env(self.vars, self.cells, self.bufs)
+    # a struct object is the list of the cells of its fields: vars[id] = ('struct', name, [cell keys]) for a
+    # local struct, ('structptr', name, [cell keys] or None) for a pointer parameter (None = the null pointer)
 
 
 class Ctx:
@@ -156,11 +179,12 @@ class Ctx:
     `break` / `continue` do; stack: the functions being inlined at this point;
     value(env, name): the function's result value (None inside an inlined callee)"""
 
-    def __init__(self, kret, kbreak, kcont, stack, value):
+    def __init__(self, kret, kbreak, kcont, stack, value, wrap=None):
         self.kret, self.kbreak, self.kcont, self.stack, self.value = kret, kbreak, kcont, stack, value
+        self.wrap = wrap or (lambda v: "COk " + v)    # how a ready-made result value leaves the current construct
 
     def but(self, **kw):
-        c = Ctx(self.kret, self.kbreak, self.kcont, self.stack, self.value)
+        c = Ctx(self.kret, self.kbreak, self.kcont, self.stack, self.value, self.wrap)
         for k, v in kw.items():
             setattr(c, k, v)
         return c
@@ -181,6 +205,10 @@ class Translator:
         self.const_cache = {}
         self.buf_const = {}   # bufkey -> the parameter is a pointer to const
         self.locals = set()   # ids of the variables declared inside the function being translated
+        self.buf_arr = {}     # bufkey -> True for a local byte array (elements may hold no value)
+        self.buf_z = {}       # bufkey -> element type of an array of scalars (`uint64_t *` parameter that is indexed)
+        self.imports = {}     # function of another translated file -> (module, signature)
+        self.structs = {}     # struct name -> [(field, ity)]
         self.rty = "unit"
         self.probe_typedefs()
 
@@ -276,7 +304,24 @@ class Translator:
         s = TYPEDEFS.get(s, s)
         if s in ITY:
             return ("int", ITY[s])
+        if re.match(r"^(struct\s+)?\w+$", s) and self.struct(re.sub(r"^struct\s+", "", s)):
+            return ("struct", re.sub(r"^struct\s+", "", s))
         raise Untranslatable("type %r" % s)
+
+    def struct(self, name):
+        """fields of `struct name` / typedef name, all of integer type; None if there is no such struct"""
+        if name not in self.structs:
+            self.structs[name] = None
+            recs = [o for o in self.dump(name) if o.get("kind") == "RecordDecl" and o.get("name") == name
+                    and o.get("tagUsed") == "struct" and o.get("completeDefinition")]
+            if len(recs) == 1:
+                try:
+                    fs = [(c["name"], self.ty(c["type"])) for c in recs[0].get("inner", []) if c["kind"] == "FieldDecl"]
+                    if fs and all(t[0] == "int" for (_, t) in fs) and not any(c.get("isBitfield") for c in recs[0]["inner"]):
+                        self.structs[name] = [(f, t[1]) for (f, t) in fs]
+                except Untranslatable:
+                    pass
+        return self.structs[name]
 
     def ity(self, node):
         t = self.ty(node["type"])
@@ -330,6 +375,11 @@ class Translator:
                     raise Untranslatable("left operand of %s not of the result type" % op)
                 self.ity(b)
                 return "(%s %s %s %s)" % ("c_shl" if op == "<<" else "c_shr", t, self.expr(a, env), self.expr(b, env))
+            if op in CMP and self.is_ptr(a) and self.is_ptr(b):
+                pa, pb = self.ptr(a, env), self.ptr(b, env)
+                if pa[0] != "bytes" or pb[0] != "bytes" or pa[1] != pb[1]:
+                    raise Untranslatable("comparison of pointers into different objects")
+                return "(%s %s %s)" % (CMP[op], pa[2] or "(COk 0)", pb[2] or "(COk 0)")
             if op in CMP:
                 if self.ity(a) != self.ity(b) or self.ity(n) != "TS32":
                     raise Untranslatable("comparison %s of operands of different types" % op)
@@ -403,10 +453,19 @@ class Translator:
             self.ity(n)
             return self.cell_read(env, v[1])
         p = self.lvalue_ptr(n, env)
+        if p[0] == "null":
+            return "(CUB UB_null_deref)"
         if p[0] == "bytes":
+            if p[1] in self.buf_z:
+                if self.ity(n) != self.buf_z[p[1]]:
+                    raise Untranslatable("array element read through an lvalue of another type")
+                return "(c_zload %s %s)" % (env.bufs[p[1]], p[2] or "(COk 0)")
+            ld = "(%s %s %s)" % ("c_aload" if self.buf_arr.get(p[1]) else "c_load", env.bufs[p[1]], p[2] or "(COk 0)")
+            if self.ity(n) == "TS8":          # the byte read through an lvalue of type signed char / int8_t
+                return "(c_cast TU8 TS8 %s)" % ld
             if self.ity(n) != "TU8":
                 raise Untranslatable("load of a non-byte through a byte pointer")
-            return "(c_load %s %s)" % (env.bufs[p[1]], p[2] or "(COk 0)")
+            return ld
         if env.cells[p[1]][0] != self.ity(n):
             raise Untranslatable("object read through a pointer of another type")
         return self.cell_read(env, p[1])
@@ -427,6 +486,17 @@ class Translator:
             v = self.var(n, env)
             if v[0] == "cell":
                 return ("cellptr", v[1])
+        if k == "MemberExpr":
+            b = self.unparen(n["inner"][0])
+            if n.get("isArrow") and b["kind"] == "ImplicitCastExpr" and b["castKind"] == "LValueToRValue":
+                b = self.unparen(b["inner"][0])
+            if b["kind"] == "DeclRefExpr":
+                v = self.var(b, env)
+                if v[0] in ("struct", "structptr") and bool(n.get("isArrow")) == (v[0] == "structptr"):
+                    if v[2] is None:
+                        return ("null",)
+                    names = [f for (f, _) in self.struct(v[1])]
+                    return ("cellptr", v[2][names.index(n["name"])])
         raise Untranslatable("lvalue %s" % k)
 
     def padd(self, p, op, i):
@@ -450,6 +520,8 @@ class Translator:
                 sub = sub["inner"][0]
             if ck == "LValueToRValue" and sub["kind"] == "DeclRefExpr":
                 v = self.var(sub, env)
+                if v[0] == "structptr":
+                    return v
                 if v[0] == "cell":
                     raise Untranslatable("integer used as a pointer")
                 if v[0] == "ptrvar":
@@ -457,6 +529,13 @@ class Translator:
                 return v
             if ck == "NoOp" and self.is_ptr(sub) and self.ty(sub["type"])[2] == t[2]:
                 return self.ptr(sub, env)
+            if ck in ("NoOp", "BitCast") and self.is_ptr(sub) and \
+                    {t[2], self.ty(sub["type"])[2]} <= {("int", "TU8"), ("int", "TS8")}:
+                return self.ptr(sub, env)            # uint8_t * <-> int8_t * / char *: the same bytes
+            if ck == "ArrayToPointerDecay" and sub["kind"] == "DeclRefExpr":
+                v = self.var(sub, env)
+                if v[0] == "bytes" and self.buf_arr.get(v[1]):
+                    return v
             raise Untranslatable("pointer cast %s" % ck)
         if k == "BinaryOperator" and n["opcode"] in ("+", "-"):
             a, b = n["inner"]
@@ -467,6 +546,10 @@ class Translator:
             self.ity(b)
             return self.padd(self.ptr(a, env), "c_padd" if n["opcode"] == "+" else "c_psub", self.expr(b, env))
         if k == "UnaryOperator" and n["opcode"] == "&":
+            b = self.unparen(n["inner"][0])
+            if b["kind"] == "DeclRefExpr" and b["referencedDecl"]["id"] in env.vars and env.vars[b["referencedDecl"]["id"]][0] == "struct":
+                v = env.vars[b["referencedDecl"]["id"]]
+                return ("structptr", v[1], v[2])
             return self.lvalue_ptr(n["inner"][0], env)
         raise Untranslatable("pointer expression %s" % k)
 
@@ -485,6 +568,26 @@ class Translator:
                 (k == "UnaryOperator" and n["opcode"] in ("++", "--")):
             return True
         return any(self.effectful(c) for c in n.get("inner", []) if isinstance(c, dict))
+
+    def st(self, bufkey):
+        return "c_zstore" if bufkey in self.buf_z else "c_astore" if self.buf_arr.get(bufkey) else "c_store"
+
+    def elem(self, bufkey):
+        return self.buf_z.get(bufkey, "TU8")
+
+    def modified(self, n):
+        """ids of the variables that n assigns, increments or decrements directly"""
+        out = []
+        k = n.get("kind")
+        if k == "CompoundAssignOperator" or (k == "BinaryOperator" and n["opcode"] == "=") or \
+                (k == "UnaryOperator" and n["opcode"] in ("++", "--")):
+            t = self.unparen(n["inner"][0])
+            if t["kind"] == "DeclRefExpr":
+                out.append(t["referencedDecl"]["id"])
+        for c in n.get("inner", []):
+            if isinstance(c, dict):
+                out += self.modified(c)
+        return out
 
     def refers(self, n, declid):
         r = n.get("referencedDecl")
@@ -610,14 +713,26 @@ class Translator:
         op = n["opcode"][:-1]
         v = self.ptrvar(lhs, env)
         if v:
-            if op not in ("+", "-") or self.effectful(rhs):
+            if op not in ("+", "-"):
                 raise Untranslatable("compound assignment %s on a pointer" % n["opcode"])
             self.ity(rhs)
-            return self.move(v, env, "(%s %s %s)" % ("c_padd" if op == "+" else "c_psub", self.cell_read(env, v[2]),
-                                                     self.expr(rhs, env)), lambda e2: k(e2, None))
+            # the pointer is read after the right operand has been evaluated (a call may take it as argument)
+            return self.rhs(rhs, env, lambda e2, r: self.move(
+                v, e2, "(%s %s (COk %s))" % ("c_padd" if op == "+" else "c_psub", self.cell_read(e2, v[2]), r),
+                lambda e3: k(e3, None)), ctx, "n")
         t, cl, cr = self.ity(lhs), self.ty(n["computeLHSType"]), self.ty(n["computeResultType"])
-        if cl[0] != "int" or cr != cl or self.effectful(rhs):
+        if cl[0] != "int" or cr != cl:
             raise Untranslatable("compound assignment %s of this shape" % n["opcode"])
+        if self.effectful(rhs):
+            # x op= f(...): x must be a plain variable that the right operand does not mention (so the
+            # order in which the two sides are evaluated cannot matter)
+            x = self.unparen(lhs)
+            if x["kind"] != "DeclRefExpr" or self.refers(rhs, x["referencedDecl"]["id"]) or op not in ARITH \
+                    or self.ity(rhs) != cl[1]:
+                raise Untranslatable("compound assignment %s with effects on the right" % n["opcode"])
+            return self.rhs(rhs, env, lambda e2, r: self.store(
+                lhs, "(c_cast %s %s (%s %s (c_cast %s %s %s) (COk %s)))" % (
+                    cl[1], t, ARITH[op], cl[1], t, cl[1], self.read(lhs, e2), r), e2, k), ctx, "n")
         a = "(c_cast %s %s %s)" % (t, cl[1], self.read(lhs, env))
         if op in ("<<", ">>"):
             self.ity(rhs)
@@ -632,14 +747,16 @@ class Translator:
         """lhs := value of term (already of lhs's type); then k(env', name of the value)"""
         lhs = self.unparen(lhs)
         p = self.lvalue_ptr(lhs, env)
+        if p[0] == "null":
+            return "CUB UB_null_deref"
         nm = self.fresh("v_", lhs["referencedDecl"]["name"] if lhs["kind"] == "DeclRefExpr" else "a")
         if p[0] == "bytes":
-            if self.ity(lhs) != "TU8" or self.buf_const.get(p[1]):
+            if self.ity(lhs) != self.elem(p[1]) or self.buf_const.get(p[1]):
                 raise Untranslatable("store through a pointer to const / of a non-byte through a byte pointer")
             m = self.fresh("m_", "")
             e = env.copy()
             e.bufs[p[1]] = m
-            return self.bind(nm, term, self.bind(m, "(c_store %s %s (COk %s))" % (env.bufs[p[1]], p[2] or "(COk 0)", nm), k(e, nm)))
+            return self.bind(nm, term, self.bind(m, "(%s %s %s (COk %s))" % (self.st(p[1]), env.bufs[p[1]], p[2] or "(COk 0)", nm), k(e, nm)))
         if env.cells[p[1]][0] != self.ity(lhs):
             raise Untranslatable("object assigned through a pointer of another type")
         return self.bind(nm, term, k(self.set_cell(env, p[1], nm), nm))
@@ -669,7 +786,7 @@ class Translator:
                     nm, m = self.fresh("v_", "a"), self.fresh("m_", "")
                     e3 = e2.copy()
                     e3.bufs[pv[1]] = m
-                    return nm, m, e3, "(c_store %s %s (COk %s))" % (e2.bufs[pv[1]], at, nm)
+                    return nm, m, e3, "(%s %s %s (COk %s))" % (self.st(pv[1]), e2.bufs[pv[1]], at, nm)
                 if q.get("isPostfix"):
                     nm, m, e3, st = put(env, self.cell_read(env, pv[2]))
                     return self.bind(nm, self.expr(rhs, env), self.bind(m, st, self.move(pv, e3, step, lambda e4: k(e4, nm))))
@@ -678,17 +795,36 @@ class Translator:
                     nm, m, e3, st = put(e2, self.cell_read(e2, pv[2]))
                     return self.bind(nm, self.expr(rhs, e2), self.bind(m, st, k(e3, nm)))
                 return self.move(pv, env, step, moved)
+        # a[i++] = e  (the index has effects; e has none and does not mention what the index modifies)
+        if lhs["kind"] == "ArraySubscriptExpr" and self.effectful(lhs):
+            a, b = lhs["inner"]
+            if not self.is_ptr(a):
+                a, b = b, a
+            if self.effectful(a) or self.effectful(rhs) or any(self.refers(rhs, i) for i in self.modified(b)):
+                raise Untranslatable("store with effects on both sides")
+
+            def at(e2, r):
+                p = self.padd(self.ptr(a, e2), "c_padd", "(COk %s)" % r)
+                if p[0] != "bytes" or self.ity(lhs) != self.elem(p[1]) or self.buf_const.get(p[1]):
+                    raise Untranslatable("store through a pointer to const / of a non-byte")
+                m = self.fresh("m_", "")
+                e3 = e2.copy()
+                e3.bufs[p[1]] = m
+                return self.bind(m, "(%s %s %s %s)" % (self.st(p[1]), e2.bufs[p[1]], p[2], self.expr(rhs, e2)), k(e3, None))
+            return self.rhs(b, env, at, ctx, "i")
         p = self.lvalue_ptr(lhs, env)
+        if p[0] == "null":
+            return "CUB UB_null_deref"
         if p[0] == "bytes":
-            if self.ity(lhs) != "TU8" or self.effectful(rhs) or self.buf_const.get(p[1]):
+            if self.ity(lhs) != self.elem(p[1]) or self.effectful(rhs) or self.buf_const.get(p[1]):
                 raise Untranslatable("store through a byte pointer of a non-byte / of a value with effects / to const")
             m = self.fresh("m_", "")
             e = env.copy()
             e.bufs[p[1]] = m
-            return self.bind(m, "(c_store %s %s %s)" % (env.bufs[p[1]], p[2] or "(COk 0)", self.expr(rhs, env)), k(e, None))
+            return self.bind(m, "(%s %s %s %s)" % (self.st(p[1]), env.bufs[p[1]], p[2] or "(COk 0)", self.expr(rhs, env)), k(e, None))
         if env.cells[p[1]][0] != self.ity(lhs):
             raise Untranslatable("object assigned through a pointer of another type")
-        hint = lhs["referencedDecl"]["name"] if lhs["kind"] == "DeclRefExpr" else "a"
+        hint = lhs["referencedDecl"]["name"] if lhs["kind"] == "DeclRefExpr" else lhs.get("name", "a")
         return self.rhs(rhs, env, lambda e2, r: k(self.set_cell(e2, p[1], r), r), ctx, hint)
 
     # ------------------------------------------------------------ statements (continuation-passing)
@@ -705,6 +841,11 @@ class Translator:
 
     def cond(self, c, env, k, ctx):
         """evaluate the controlling expression c, then k(env', term of its value)"""
+        if self.is_ptr(c):                   # if (p): known when the function was entered (see function1)
+            v = self.ptr(c, env)
+            if v[0] != "structptr":
+                raise Untranslatable("pointer used as a condition")
+            return k(env, "(COk %d)" % (0 if v[2] is None else 1))
         self.ity(c)
         if self.effectful(c):
             return self.rhs(c, env, lambda e2, r: k(e2, "(COk %s)" % r), ctx, "c")
@@ -753,8 +894,27 @@ class Translator:
         d = ds[0]
         if d["kind"] != "VarDecl" or d.get("storageClass") or d.get("tls"):
             raise Untranslatable("declaration %s %s" % (d["kind"], d.get("storageClass", "")))
-        t = self.ty(d["type"])
         e = env.copy()
+        arr = re.match(r"^(.*?)\s*\[(\d+)\]$", d["type"].get("desugaredQualType") or d["type"]["qualType"])
+        if arr:                                            # uint8_t a[n]: a byte object whose elements hold no value yet
+            if self.ty(arr.group(1)) != ("int", "TU8") or re.match(r"^const\b", arr.group(1)) or "init" in d:
+                raise Untranslatable("local array %s (only uninitialised uint8_t arrays)" % d["name"])
+            nm = self.fresh("m_", d["name"])
+            e.vars[d["id"]] = ("bytes", d["id"], None)
+            e.bufs[d["id"]] = nm
+            self.buf_arr[d["id"]] = True
+            return self.bind(nm, "(COk (c_anew %s))" % arr.group(2), self.decls(ds[1:], e, k, ctx))
+        t = self.ty(d["type"])
+        if t[0] == "struct":                               # a local struct: one cell per field, none holding a value
+            if "init" in d:
+                raise Untranslatable("initialised struct %s" % d["name"])
+            keys = []
+            for (f, ft) in self.struct(t[1]):
+                key = "%s.%s" % (d["id"], f)
+                e.cells[key] = (ft, ("unset",))
+                keys.append(key)
+            e.vars[d["id"]] = ("struct", t[1], keys)
+            return self.decls(ds[1:], e, k, ctx)
         if t[0] == "ptr" and t[2] == ("int", "TU8"):       # byte pointer local = an offset into the object of a parameter
             if d.get("init") != "c":
                 raise Untranslatable("pointer %s declared without initialiser" % d["name"])
@@ -834,6 +994,9 @@ class Translator:
             r = n.get("referencedDecl")
             if n.get("kind") == "DeclRefExpr" and r and r.get("id") in env.vars:
                 v = env.vars[r["id"]]
+                if v[0] in ("struct", "structptr") and v[2]:
+                    for key in v[2]:
+                        add(cells, key)
                 if v[0] in ("cell", "cellptr"):
                     add(cells, v[1])
                 elif v[0] == "ptrvar":
@@ -902,7 +1065,7 @@ class Translator:
             if ctx.value is None:
                 raise Untranslatable("return inside a loop of an inlined function")
             return "COk (LRet %s)" % ctx.value(e, r)
-        lctx = ctx.but(kret=ret, kbreak=brk)
+        lctx = ctx.but(kret=ret, kbreak=brk, wrap=lambda v: "COk (LRet %s)" % v)
         e_in, pat = names(env)
 
         def after_body(e):
@@ -924,7 +1087,7 @@ class Translator:
         return self.bind(l, "c_while (R:=%s) v_fuel\n%s\n%s" % (self.rty if ctx.value else "unit", indent(blk(fn + "\n" + indent(step))),
                                                                  indent(pack(env))),
                          "match %s with\n| LRet r => %s\n| LNext %s | LBreak %s =>\n%s\nend" % (
-                             l, "COk r" if ctx.value else "CUB UB_no_return", tup(pat2, "_"), tup(pat2, "_"), indent(k(e_out))))
+                             l, ctx.wrap("r") if ctx.value else "CUB UB_no_return", tup(pat2, "_"), tup(pat2, "_"), indent(k(e_out))))
 
     # ------------------------------------------------------------ calls
     def call(self, n, env, k, ctx):
@@ -943,6 +1106,8 @@ class Translator:
         if m:
             return self.overflow(m, args, env, k)
         d = self.ast(name)
+        if d is None and name in self.imports:
+            return self.call_src(name, args, env, k)
         if d is None:
             raise Untranslatable("call to %s, which is not defined in this file" % name)
         if d.get("storageClass") == "static":
@@ -1028,23 +1193,30 @@ class Translator:
         return out
 
     def check_ptr(self, v, t, env):
+        if v[0] == "structptr" or t[2][0] == "struct":
+            if v[0] != "structptr" or t[2] != ("struct", v[1]):
+                raise Untranslatable("pointer to a struct passed as / where another pointer is expected")
+            return
         if v[0] == "bytes":
-            if t[2] != ("int", "TU8"):
-                raise Untranslatable("byte pointer passed as a pointer to another type")
+            if t[2] != ("int", self.elem(v[1])) or self.buf_arr.get(v[1]):
+                raise Untranslatable("byte pointer passed as a pointer to another type / local array passed to a function")
             if self.buf_const.get(v[1]) and not t[1]:
                 raise Untranslatable("pointer to const passed as a pointer to non-const")
         elif t[2] != ("int", env.cells[v[1]][0]):
             raise Untranslatable("pointer to an object passed as a pointer to another type")
 
     def call_src(self, name, args, env, k):
-        self.function(name)
-        info = self.done[name]
-        if "error" in info:
-            raise Untranslatable("calls %s, which is not translated" % name)
-        sig = info["sig"]
+        if name in self.imports:
+            sig = self.imports[name][1]
+        else:
+            self.function(name)
+            info = self.done[name]
+            if "error" in info:
+                raise Untranslatable("calls %s, which is not translated" % name)
+            sig = info["sig"]
         if len(sig["params"]) != len(args):
             raise Untranslatable("arity of %s" % name)
-        binds, actual, outs, seen, e = [], [], [], set(), env.copy()
+        binds, actual, outs, seen, splices, structs_back, e = [], [], [], set(), [], [], env.copy()
         if sig["fuel"]:
             self.fuel = True
             actual.append("v_fuel")
@@ -1057,16 +1229,47 @@ class Translator:
                 actual.append(nm)
                 continue
             v = self.ptr(a, env)
+            if pk == "struct":
+                self.check_ptr(v, ("ptr", pconst, ("struct", pt)), env)
+                if v[2] is None:
+                    actual.append("None")
+                    if not pconst:
+                        outs.append("_")
+                    continue
+                if tuple(v[2]) in seen:
+                    raise Untranslatable("two pointer arguments to the same object")
+                seen.add(tuple(v[2]))
+                fs = []
+                for key in v[2]:
+                    st = env.cells[key][1]
+                    fs.append("None" if st[0] == "unset" else "Some %s" % st[1] if st[0] == "val" else st[1])
+                actual.append("(Some (%s))" % ", ".join(fs))
+                if not pconst:
+                    back = self.fresh("s_", "")
+                    outs.append(back)
+                    structs_back.append((v[2], back))
+                continue
             self.check_ptr(v, ("ptr", pconst, ("int", pt)), env)
+            if (pk == "cell") != (v[0] == "cellptr"):
+                raise Untranslatable("array passed where one object is expected, or the reverse")
             if v[1] in seen:
                 raise Untranslatable("two pointer arguments to the same object")
             seen.add(v[1])
-            if v[0] == "bytes":
-                if v[2] is not None:
-                    raise Untranslatable("offset byte pointer passed to non-static %s" % name)
+            if v[0] == "bytes" and v[2] is not None:      # p + k: the callee sees the object from index k on
+                off, view = self.fresh("v_", "off"), self.fresh("m_", "view")
+                binds.append((off, v[2]))
+                if v[1] in self.buf_z:
+                    raise Untranslatable("offset pointer into an array of scalars passed to a function")
+                binds.append((view, "(c_view %s (COk %s))" % (env.bufs[v[1]], off)))
+                actual.append(view)
+                if not pconst:
+                    back = self.fresh("m_", "view")
+                    outs.append(back)
+                    splices.append((v[1], off, back))
+            elif v[0] == "bytes":
                 actual.append(env.bufs[v[1]])
                 if not pconst:
-                    nm = self.fresh("m_", "")
+                    nm = self.fresh("a_" if v[1] in self.buf_z else "m_", "")
                     e.bufs[v[1]] = nm
                     outs.append(nm)
             else:
@@ -1081,7 +1284,20 @@ class Translator:
             r = self.fresh("v_", "ret")
             outs.insert(0, r)
         pat = "_" if not outs else outs[0] if len(outs) == 1 else "'(%s)" % ", ".join(outs)
-        out = self.bind(pat, "src_%s %s" % (name, " ".join(actual)), k(e, r))
+        for (key, off, back) in splices:
+            e.bufs[key] = self.fresh("m_", "")
+        pats = []
+        for (keys, back) in structs_back:          # a callee given a struct hands a struct back
+            ns = [self.fresh("p_", "f") for _ in keys]
+            for key, nm in zip(keys, ns):
+                e.cells[key] = (env.cells[key][0], ("opt", nm))
+            pats.append((back, ns))
+        rest = k(e, r)
+        for (back, ns) in reversed(pats):
+            rest = "match %s with\n| Some (%s) =>\n%s\n| None => CUB UB_null_deref\nend" % (back, ", ".join(ns), indent(rest))
+        for (key, off, back) in reversed(splices):
+            rest = self.bind(e.bufs[key], "(c_unview %s (COk %s) %s)" % (env.bufs[key], off, back), rest)
+        out = self.bind(pat, "src_%s %s" % (name, " ".join(actual)), rest)
         for (nm, t) in reversed(binds):
             out = self.bind(nm, t, out)
         return out
@@ -1092,8 +1308,8 @@ class Translator:
             return
         if fn in self.active:
             raise Untranslatable("recursion through %s" % fn)
-        saved = (self.n, self.fuel, self.rty, self.buf_const)
-        self.n, self.fuel, self.buf_const = 0, False, {}
+        saved = (self.n, self.fuel, self.rty, self.buf_const, self.buf_arr, self.buf_z)
+        self.n, self.fuel, self.buf_const, self.buf_arr, self.buf_z = 0, False, {}, {}, {}
         self.active.append(fn)
         try:
             d = self.ast(fn)
@@ -1105,7 +1321,7 @@ class Translator:
             self.done[fn] = {"error": str(e)}
         self.active.pop()
         self.order.append(fn)
-        self.n, self.fuel, self.rty, self.buf_const = saved
+        self.n, self.fuel, self.rty, self.buf_const, self.buf_arr, self.buf_z = saved
 
     def scan_globals(self, fn, d):
         """non-const variables with static storage duration the function refers to"""
@@ -1137,12 +1353,64 @@ class Translator:
         if s not in self.globals_read:
             self.globals_read.append(s)
 
+    def indexed(self, d):
+        """ids of the pointer parameters / variables that the function subscripts or does arithmetic on"""
+        out = set()
+
+        def base(n):
+            while n.get("kind") in ("ParenExpr", "ImplicitCastExpr", "CStyleCastExpr"):
+                n = n["inner"][0]
+            if n.get("kind") == "DeclRefExpr":
+                out.add(n["referencedDecl"]["id"])
+
+        def walk(n):
+            k = n.get("kind")
+            if k == "ArraySubscriptExpr" or (k == "BinaryOperator" and n["opcode"] in ("+", "-") and self.is_ptr_safe(n)):
+                for c in n["inner"]:
+                    if self.is_ptr_safe(c):
+                        base(c)
+            if k == "CallExpr":                      # passed on to a parameter that the callee uses as an array
+                f = n["inner"][0]
+                while f.get("kind") in ("ImplicitCastExpr", "ParenExpr"):
+                    f = f["inner"][0]
+                name = f.get("referencedDecl", {}).get("name")
+                sig = None
+                if name in self.imports:
+                    sig = self.imports[name][1]
+                elif name and name != d.get("name") and name not in self.active[:-1] and self.ast_safe(name) is not None \
+                        and self.ast_safe(name).get("storageClass") != "static":
+                    self.function(name)
+                    sig = self.done[name].get("sig")
+                if sig:
+                    for (pk, _, _, _), a in zip(sig["params"], n["inner"][1:]):
+                        if pk == "zarr":
+                            base(a)
+            for c in n.get("inner", []):
+                if isinstance(c, dict):
+                    walk(c)
+        walk(d)
+        return out
+
+    def ast_safe(self, name):
+        try:
+            return self.ast(name)
+        except (Untranslatable, RuntimeError):
+            return None
+
+    def is_ptr_safe(self, n):
+        try:
+            return "type" in n and self.is_ptr(n)
+        except Untranslatable:
+            return False
+
     def signature(self, d):
         """Coq parameters, result components and initial environment from the prototype"""
         ps, rt = self.params(d), self.ret_type(d)
+        moved = set(self.modified(d))                   # parameters the body itself advances (p++, p += n, p = p + 1)
+        indexed = self.indexed(d)                       # `T *` parameters used as arrays
         if rt[0] == "ptr":
             raise Untranslatable("pointer return type")
-        env, coq_params, sig_params, outs = Env(), [], [], []
+        env, coq_params, sig_params, outs, nullable = Env(), [], [], [], []
         for p in ps:
             t = self.ty(p["type"])
             if t[0] == "int":
@@ -1155,12 +1423,25 @@ class Translator:
                 nm = "m_" + p["name"]
                 # the parameter itself is a pointer variable (it may be advanced): its offset starts at 0
                 env.vars[p["id"]] = ("bytes", p["id"], None)
+                if p["id"] in moved:
+                    env.vars[p["id"]] = ("ptrvar", p["id"], p["id"] + "#off")
+                    env.cells[p["id"] + "#off"] = (PTR, ("val", "0"))
                 env.bufs[p["id"]] = nm
                 self.buf_const[p["id"]] = t[1]
                 coq_params.append("(%s : list N)" % nm)
                 sig_params.append(("bytes", "TU8", t[1], p["name"]))
                 if not t[1]:
                     outs.append(("bytes", p["id"]))
+            elif t[0] == "ptr" and t[2][0] == "int" and p["id"] in indexed:
+                nm = "a_" + p["name"]
+                env.vars[p["id"]] = ("bytes", p["id"], None)
+                env.bufs[p["id"]] = nm
+                self.buf_const[p["id"]] = t[1]
+                self.buf_z[p["id"]] = t[2][1]
+                coq_params.append("(%s : list Z)" % nm)
+                sig_params.append(("zarr", t[2][1], t[1], p["name"]))
+                if not t[1]:
+                    outs.append(("zarr", p["id"]))
             elif t[0] == "ptr" and t[2][0] == "int":
                 nm = "p_" + p["name"]
                 key = "*" + p["id"]
@@ -1170,9 +1451,26 @@ class Translator:
                 sig_params.append(("cell", t[2][1], t[1], p["name"]))
                 if not t[1]:
                     outs.append(("cell", key))
+            elif t[0] == "ptr" and t[2][0] == "struct":
+                nm = "s_" + p["name"]
+                fs = self.struct(t[2][1])
+                keys = ["%s.%s" % (p["id"], f) for (f, _) in fs]
+                for key, (f, ft) in zip(keys, fs):
+                    env.cells[key] = (ft, ("opt", "p_%s_%s" % (p["name"], f)))
+                env.vars[p["id"]] = ("structptr", t[2][1], keys)
+                coq_params.append("(%s : option (%s))" % (nm, " * ".join("option Z" for _ in fs)))
+                sig_params.append(("struct", t[2][1], t[1], p["name"]))
+                nullable.append((p["id"], nm, ["p_%s_%s" % (p["name"], f) for (f, _) in fs]))
+                if not t[1]:
+                    outs.append(("struct", p["id"]))
             else:
                 raise Untranslatable("parameter %s of type %s" % (p["name"], p["type"]["qualType"]))
-        comps = (["Z"] if rt != ("void",) else []) + ["list N" if o[0] == "bytes" else "option Z" for o in outs]
+        self.nullable = nullable
+        def comp(o):
+            if o[0] == "struct":
+                return "option (%s)" % " * ".join("option Z" for _ in env.vars[o[1]][2])
+            return {"bytes": "list N", "zarr": "list Z"}.get(o[0], "option Z")
+        comps = (["Z"] if rt != ("void",) else []) + [comp(o) for o in outs]
         return env, coq_params, sig_params, outs, rt, " * ".join(comps) if comps else "unit"
 
     def function1(self, fn, d):
@@ -1184,8 +1482,18 @@ class Translator:
                 raise Untranslatable("return with/without a value")
             xs = [r] if r is not None else []
             for (kind, key) in outs:
-                if kind == "bytes":
+                if kind in ("bytes", "zarr"):
                     xs.append(e.bufs[key])
+                elif kind == "struct":
+                    v = e.vars[key]
+                    if v[2] is None:
+                        xs.append("None")
+                    else:
+                        fs = []
+                        for ck in v[2]:
+                            st = e.cells[ck][1]
+                            fs.append("None" if st[0] == "unset" else "Some %s" % st[1] if st[0] == "val" else st[1])
+                        xs.append("(Some (%s))" % ", ".join(fs))
                 else:
                     st = e.cells[key][1]
                     xs.append("None" if st[0] == "unset" else "Some %s" % st[1] if st[0] == "val" else st[1])
@@ -1197,7 +1505,17 @@ class Translator:
         def fall(e):
             return result(e, None) if rt == ("void",) else "CUB UB_no_return"
         body = [c for c in d["inner"] if c["kind"] == "CompoundStmt"][0]
-        code = self.stmt(body, env, fall, Ctx(result, None, None, (fn,), value))
+
+        def entry(e, todo):
+            """a struct pointer parameter may be NULL: the body is rendered once for each case"""
+            if not todo:
+                return self.stmt(body, e, fall, Ctx(result, None, None, (fn,), value))
+            (pid, nm, fields), rest = todo[0], todo[1:]
+            e_null = e.copy()
+            e_null.vars[pid] = ("structptr", e.vars[pid][1], None)
+            return "match %s with\n| Some (%s) =>\n%s\n| None =>\n%s\nend" % (
+                nm, ", ".join(fields), indent(entry(e, rest)), indent(entry(e_null, rest)))
+        code = entry(env, self.nullable)
         if self.fuel:
             coq_params.insert(0, "(v_fuel : nat)")
         head = "Definition src_%s %s : cres (%s) :=" % (fn, " ".join(coq_params), rty)
@@ -1239,7 +1557,10 @@ class Translator:
         return txt
 
 
-def translate_file(repo, cfile, functions, module, outdir, wrappers=""):
+SIGS = {}    # module -> {function: signature}, filled as the files are translated
+
+
+def translate_file(repo, cfile, functions, module, outdir, wrappers="", imports=()):
     """Write <outdir>/Src_<module>.v; return the entry for the generated-facts block.
     `wrappers`: C text of tiny functions q_<macro>(…) { <macro>(…); } through which
     function-like macros of the header are translated after expansion; it is
@@ -1253,12 +1574,17 @@ def translate_file(repo, cfile, functions, module, outdir, wrappers=""):
         functions = functions + re.findall(r"\b(q_\w+)\s*\(", wrappers)
     else:
         tr = Translator(repo, cfile)
+    for m in imports:
+        for fn, sig in SIGS.get(m, {}).items():
+            tr.imports[fn] = (m, sig)
     for fn in functions:
         tr.function(fn)
+    SIGS[module] = {fn: tr.done[fn]["sig"] for fn in tr.order if "sig" in tr.done[fn]}
     lines = ["(* generated by gen/c2coq.py from src/%s — do not edit.  One definition src_<f> per" % cfile,
              "   translated C function (CSem.v gives the meaning of every c_* operation); a function the",
              "   translator does not fully understand appears as src_<f>_UNTRANSLATED instead. *)",
-             "Require Import VV.Base VV.CSem.", "From Coq Require Import String.",
+             "Require Import VV.Base VV.CSem.", "From Coq Require Import String."] + [
+                 "Require Import VVgen.Src_%s." % m for m in imports] + [
              "Local Open Scope Z_scope.", "Local Open Scope csem_scope.", ""]
     ok, bad = [], {}
     for fn in tr.order:
@@ -1305,9 +1631,25 @@ CSIMPLE_FUNCTIONS = ["varintChainedSimpleEncode64", "varintChainedSimpleLength",
                      "varintChainedSimpleEncode32", "varintChainedSimpleDecode32Fallback", "varintChainedSimpleDecode32"]
 
 
+CHAINED_FUNCTIONS = ["varintChainedPutVarint", "varintChainedGetVarint", "varintChainedGetVarint32",
+                     "varintChainedVarintLen"]
+CHAINED_WRAPPERS = """
+#include "varintChained.h"
+uint8_t q_varintChained_getVarint32(const uint8_t *A, uint32_t *B) { return varintChained_getVarint32(A, *B); }
+uint8_t q_varintChained_putVarint32(uint8_t *A, uint32_t B) { return varintChained_putVarint32(A, B); }
+"""
+
+
+RLE_FUNCTIONS = ["varintRLEDecodeRun", "varintRLEDecode", "varintRLEDecodeWithHeader", "varintRLEGetAt",
+                 "varintRLEGetCount", "varintRLEGetRunCount", "varintRLEAnalyze", "varintRLESize",
+                 "varintRLEIsBeneficial", "varintRLEEncode", "varintRLEEncodeWithHeader"]
+
+
 def regenerate(repo, outdir):
     info = translate_file(repo, "varintTagged.c", TAGGED_FUNCTIONS, "tagged", outdir, TAGGED_WRAPPERS)
     info.update(translate_file(repo, "varintChainedSimple.c", CSIMPLE_FUNCTIONS, "csimple", outdir))
+    info.update(translate_file(repo, "varintChained.c", CHAINED_FUNCTIONS, "chained", outdir, CHAINED_WRAPPERS))
+    info.update(translate_file(repo, "varintRLE.c", RLE_FUNCTIONS, "rle", outdir, imports=("tagged",)))
     return info
 
 
